@@ -53,11 +53,27 @@ def genVisCases (tier : String) (seed : Nat) (tagp : String) : Array Case := Id.
   let mut rng : Rng := ⟨UInt64.ofNat (seed * 49979687 + 11)⟩
   for i in [0:n] do
     let (s, rng') :=
-      if i % 3 = 0 then genC01 { suffixes := false, maxDepth := 2, maxComps := 5 } rng
+      if i % 8 = 7 then
+        -- a component with simple properties and two nested property statements (the complex
+        -- property field is a combination of statements), with annotations on the properties
+        (do
+          let g : GS Stmt := do
+            let (c, pr) ← liftG (pick [(Sym.A, Sym.Ap), (Sym.Bdir, Sym.Bdirp), (Sym.Bind, Sym.Bindp)])
+            let i1 ← genFlatParts (← liftG (range 1 2)) 0
+            let i2 ← genFlatParts (← liftG (range 1 2)) 0
+            let opw ← liftG (pick [none, some "[AND]", some "[OR]", some "[XOR]"])
+            let mid : List Part := match opw with | some w => [Part.filler w.toList] | none => []
+            let other ← genFlatParts 1 1 [c, pr]
+            pure (Stmt.mk ([Part.ann { sym := c, anno := some "role=x".toList } true (.leaf (← genText)),
+              Part.ann { sym := pr, anno := some "prop=q".toList } true (.leaf (← genText))] ++ other ++
+              [Part.nested { sym := pr, anno := some "ctx=y".toList } (Stmt.mk i1)] ++ mid ++ [Part.nested { sym := pr } (Stmt.mk i2)]))
+          let (s, _) ← g.run 0
+          pure s) rng
+      else if i % 3 = 0 then genC01 { suffixes := false, maxDepth := 2, maxComps := 5 } rng
       else if i % 3 = 1 then genSupC02 2 rng
       else genNestedSup { depth := 1, pairs := true, nestedPairs := true } rng
     rng := rng'
-    let kind := if i % 3 = 0 then "simple" else if i % 3 = 1 then "nested" else "pairs"
+    let kind := if i % 8 = 7 then "nested-properties" else if i % 3 = 0 then "simple" else if i % 3 = 1 then "nested" else "pairs"
     for v in [0:32] do
       out := out.push (visCase s!"{tagp}-{i}-{v}" kind s v)
   pure out
